@@ -303,13 +303,21 @@ package rapid
 //@   ensures [ready-count-is-number-of-invoke-subscribers] extEnabled() && delta(ReleaseRuntime) >= 1 ==> delta(SubscribedIntForInvoke) == 1 && delta(SubscribedExtForInvoke) == 1 && delta(SubscribedInt) == 1 && delta(SubscribedExt) == 1 && delta(SetInvokeAgentsCount) == 1 && delta(SetInvokeAgentsCountOK) == 1 && lastarg(SetInvokeAgentsCount, 1) == (len(lastret(SubscribedInt)) + len(lastret(SubscribedExt))) % 65536 && last(InitBarriersOK) < first(SetInvokeAgentsCount) && last(SetInvokeAgentsCountOK) < first(ReleaseRuntime)
 //@   ensures [released-exactly-the-invoke-subscribers] delta(ReleaseRuntime) <= 1 && (delta(ReleaseRuntime) == 1 ==> delta(ReleaseExt) == ite(extEnabled(), len(lastret(SubscribedExt)), 0) && delta(ReleaseInt) == ite(extEnabled(), len(lastret(SubscribedInt)), 0)) && (delta(ReleaseRuntime) == 0 ==> delta(ReleaseExt) == 0 && delta(ReleaseInt) == 0)
 //@   ensures [not-complete-before-everyone-is-back] r0 == nil ==> delta(ReleaseRuntime) == 1 && delta(AwaitResponseOK) == 1 && delta(AwaitInvokeRuntimeReadyOK) == 1 && first(ReleaseRuntime) < first(AwaitResponse) && last(AwaitResponseOK) < first(AwaitInvokeRuntimeReady) && (lastret(ActiveExtensionsCheck) ==> delta(AwaitInvokeAgentsReadyOK) == 1 && last(AwaitInvokeRuntimeReadyOK) < first(AwaitInvokeAgentsReady))
+// C04: whether there are extensions to wait for is asked once the extensions of this generation are known, i.e. after an
+// initialisation that ran inside this invocation (they register during it), not before
+//@   ensures [C04: extensions-are-counted-after-the-initialisation-that-registers-them] r0 == nil ==> delta(ActiveExtensionsCheck) >= 1 && (delta(InlineInitOK) == 1 ==> last(InlineInitOK) < last(ActiveExtensionsCheck))
 //@   ensures [runtime-done-is-truthful] delta(EvInvokeRuntimeDone) <= 1 && delta(EvInvokeRuntimeDoneSuccess) == delta(EvInvokeRuntimeDone) && (delta(EvInvokeRuntimeDone) == 1 ==> first(EvInvokeStart) < first(EvInvokeRuntimeDone) && delta(AwaitResponseOK) == 1 && delta(AwaitInvokeRuntimeReadyOK) == 1 && last(AwaitInvokeRuntimeReadyOK) < first(EvInvokeRuntimeDone))
 
+//@ event CurrentRequestSet = call interop.(EventsAPI).SetCurrentRequestID
 //@ func doInvoke
 //@   requires held(execCtx)
 //@   requires execCtx != nil && invokeRequest != nil && mx != nil && sbInfoFromInit.EnvironmentVariables != nil
 //@   ensures [at-most-one-runtime-done-per-invocation] rtDoneBooked(execCtx)
 //@   ensures [one-invoke-start] delta(EvInvokeStart) == 1 && lastarg(EvInvokeStart, 1).RequestID == old(invokeRequest.ID)
+// C15 ("truthful trace"): the events sink stamps later events (the runtime-done of a reset among them) with the current request
+// id; it is told the new request before that request's start event goes out, on every path, so that no event of this
+// invocation can carry the previous request's id
+//@   ensures [C15: the-sink-knows-the-request-before-its-start-event] delta(CurrentRequestSet) == 1 && lastarg(CurrentRequestSet, 1) == old(invokeRequest.ID) && first(CurrentRequestSet) < first(EvInvokeStart)
 //@   ensures [delivered-only-after-init] delta(ReleaseRuntime) >= 1 ==> execCtx.initDone
 //@   ensures [barriers-armed-before-delivery] delta(InitBarriers) <= 1 && (delta(ReleaseRuntime) >= 1 ==> delta(InitBarriersOK) == 1 && last(InitBarriersOK) < first(ReleaseRuntime))
 //@   ensures [released-exactly-the-invoke-subscribers] delta(ReleaseRuntime) <= 1 && (delta(ReleaseRuntime) == 1 ==> delta(ReleaseExt) == ite(extEnabled(), len(lastret(SubscribedExt)), 0) && delta(ReleaseInt) == ite(extEnabled(), len(lastret(SubscribedInt)), 0)) && (delta(ReleaseRuntime) == 0 ==> delta(ReleaseExt) == 0 && delta(ReleaseInt) == 0)
@@ -482,6 +490,8 @@ package rapid
 //@ event RuntimeParkedOnRestore = ret core.(*Runtime).GetState when r0 == a0.RuntimeRestoreReadyState
 //@ event RuntimeStateAsked = ret core.(*Runtime).GetState
 //@ event RestoreAwaited = call core.(InitFlowSynchronization).AwaitRuntimeReadyWithDeadline
+//@ event RestoreAwaitReturned = ret core.(InitFlowSynchronization).AwaitRuntimeReadyWithDeadline
+//@ event FirstFaultLookedUp = call appctx.LoadFirstFatalError
 //@ event RestoreAwaitedOK = ret core.(InitFlowSynchronization).AwaitRuntimeReadyWithDeadline when r0 == nil
 //@ event EvRestoreRuntimeDone = call interop.(EventsAPI).SendRestoreRuntimeDone
 //@ event EvRestoreRuntimeDoneSuccess = call interop.(EventsAPI).SendRestoreRuntimeDone when a1.Status == telemetry.RuntimeDoneSuccess
@@ -506,6 +516,9 @@ package rapid
 //@   ensures [returns-at-once-if-never-parked] delta(CredentialsUpdateFailed) == 0 && delta(RuntimeParkedOnRestore) == 0 ==> r1 == nil && delta(ReleaseRuntime) == 0 && delta(RestoreAwaited) == 0
 //@   ensures [succeeds-only-after-the-runtime-came-back] delta(ReleaseRuntime) == 1 ==> delta(RestoreAwaited) == 1 && first(ReleaseRuntime) < first(RestoreAwaited) && (r1 == nil ==> delta(RestoreAwaitedOK) == 1 && !has(ctxOf(execCtx.appCtx).m, appctx.AppCtxFirstFatalErrorKey))
 //@   ensures [recorded-fault-overrides] delta(ReleaseRuntime) == 1 && has(ctxOf(execCtx.appCtx).m, appctx.AppCtxFirstFatalErrorKey) ==> r1 != nil
+// C18 ("a fault recorded while the restore waits — the runtime exits during the hook — is what the restore fails with"): the
+// events watcher records it concurrently, so it is looked up after the wait has returned, not before
+//@   ensures [C18: the-first-fault-is-looked-up-after-the-wait] delta(ReleaseRuntime) == 1 ==> delta(FirstFaultLookedUp) >= 1 && delta(RestoreAwaitReturned) == 1 && last(RestoreAwaitReturned) < last(FirstFaultLookedUp)
 //@   ensures [one-done-event-truthful-about-the-wait] delta(EvRestoreRuntimeDone) == 1 && (delta(ReleaseRuntime) == 1 ==> delta(EvRestoreRuntimeDoneSuccess) == ite(r1 == nil, 1, 0))
 
 // C18: snapshot mode: a random per-instance token goes into the runtime's environment together with the endpoint URI;
